@@ -35,7 +35,7 @@ CONFIG = dict(
              "talk to the kernel, not to a decoded value) - for all of those the assurance in C03 is the crash search of oracle "
              "c03 on the real code (testing, not proof). The search is mutation-based with behaviour-novelty feedback, not "
              "coverage-guided (no instrumentation in-process)."),
-    rule=("v6acc: every accessor method of the seven DHCPv6 option-set types on generated, wire-tripped and hand-built messages (an OptionGeneric under a code of the parser table inserted at some level), on the message's own option set or a nested one chosen by path, result compared with the model as a term (ok <value> / panic / badtype); lexer: programs of 1..10 reads (Read8/16/32/64, Consume, CopyN, ReadBytes, ReadAll, Has, Len, Error, FinError; lengths around what is left, zero, far too much) on buffers of 0..40 bytes run on the real uio.Lexer and on its model lean/Dhcp/Go/Lexer.lean - the dependency every decoder and every decoder model reads through (thorough: every program of up to 3 operations over a 13-operation alphabet on buffers of 0..5 bytes); streams v4dec/v6dec: ok/err/panic verdict of the Go decoders vs the Lean model on valid, truncated, length-perturbed and "
+    rule=("v6acc: (oracle c03 also: a second phase in which all workers walk the dictionary packets - every circuit-id naming scheme, every vendor class - at once; the corpus holds every enterprise number anybody has a case for x the bare vendor-option shapes at message and relay level; the probe shared-encode in a child process, class crash:shared-value-read-concurrently) every accessor method of the seven DHCPv6 option-set types on generated, wire-tripped and hand-built messages (an OptionGeneric under a code of the parser table inserted at some level), on the message's own option set or a nested one chosen by path, result compared with the model as a term (ok <value> / panic / badtype); lexer: programs of 1..10 reads (Read8/16/32/64, Consume, CopyN, ReadBytes, ReadAll, Has, Len, Error, FinError; lengths around what is left, zero, far too much) on buffers of 0..40 bytes run on the real uio.Lexer and on its model lean/Dhcp/Go/Lexer.lean - the dependency every decoder and every decoder model reads through (thorough: every program of up to 3 operations over a 13-operation alphabet on buffers of 0..5 bytes); streams v4dec/v6dec: ok/err/panic verdict of the Go decoders vs the Lean model on valid, truncated, length-perturbed and "
           "random inputs. stream c03x: every op line carries wire bytes; both sides decode them and call the observer on the "
           "decoded value; verdict AND returned value (canonical text) are compared: DecapsulateRelay, DecapsulateRelayIndex "
           "(relay chains of depth 0..8, thorough to 40, built by hand with and without a relay-message option, generic/duplicated "
